@@ -377,11 +377,12 @@ def sync_model_stream(run, n, label='sync-model'):
                 if e[1] == 'F': return ['F', str(e[3]), X(e[2])]
                 return ['L', X(e[2])]
             nodes = [('D', 'D')] + [('D/' + e[0],) + tuple(e[1:]) for e in dst_ents]
-            t = ['syncdest', X('D'), str(len(nodes))]
-            for e in nodes:
+            snodes = [('S', 'D')] + [('S/' + e[0],) + tuple(e[1:]) for e in src_ents]
+            t = ['synctrees', X('S'), str(len(snodes))]           # the objects of C01_mirror_two_trees: two trees, the model lists them itself
+            for e in snodes:
                 t += [X(e[0])] + tok(e)
-            t += [str(len(src_ents))]
-            for e in src_ents:
+            t += [X('D'), str(len(nodes))]
+            for e in nodes:
                 t += [X(e[0])] + tok(e)
             placement = rng.choice(['', '', 'localhost:'])
             cases.append(dict(i=i, base=base, line=' '.join(t), src=src_ents, dst=dst_ents, placement=placement))
